@@ -45,13 +45,15 @@ def plan(tier, seed, jobs):
     crash = shard('compiled', 70 if q else 600, 10, part='crash', timeout=3000, time_budget=200 if q else 1700)
     for k, u in enumerate(crash):  # one scenario per shard: each worker needs only one reference / trace run
         u['scn'], u['half'] = k % 5, k // 5
-    resume = shard('compiled', 15 if q else 40, 5, part='resume', timeout=3000, time_budget=200 if q else 1700)
+    # (every checkpoint of every scenario, the last one before the final save included: 5-7 checkpoints per scenario)
+    resume = shard('compiled', 35 if q else 70, 5, part='resume', timeout=3000, time_budget=200 if q else 1700)
     for k, u in enumerate(resume):
         u['scn'] = k % 5
+    engine = shard('compiled', 12 if q else 120, 2, part='engine', timeout=3000, time_budget=200 if q else 1700)
     second = shard('compiled', 60 if q else 300, 4, part='second', timeout=3000, time_budget=200 if q else 1700)
     for k, u in enumerate(second):
         u['scn'], u['half'] = k % 2, k // 2
-    return crash + resume + second
+    return crash + resume + second + engine
 
 
 def sim_spec(name):
@@ -345,6 +347,70 @@ def case_resume(ctx, i):
         ctx.sample(case)
     finally:
         shutil.rmtree(wd, ignore_errors=True)
+
+
+def case_engine(ctx, i):
+    """Engine-level resume as documented for Algorithm.get_resume_data: at every checkpoint of a DMRG run (with and without
+    orthogonal_to) the state, the options and the resume data are kept; a fresh engine built from them and resumed must end with the
+    energy and state of the uninterrupted run."""
+    import copy
+    from tenpy.models.xxz_chain import XXZChain
+    from tenpy.networks.mps import MPS
+    from tenpy.algorithms import dmrg
+    rng = ctx.rng
+    L = int(rng.choice([6, 8]))
+    M = XXZChain({'L': L, 'Jxx': 1.0, 'Jz': float(rng.choice([0.5, 1.0, 1.5])), 'hz': 0.0, 'bc_MPS': 'finite'})
+    engine = str(rng.choice(['TwoSiteDMRGEngine', 'SingleSiteDMRGEngine']))
+    excited = bool(rng.random() < 0.6)
+    opts = {'trunc_params': {'chi_max': int(rng.choice([8, 16])), 'svd_min': 1e-10}, 'max_sweeps': int(rng.integers(4, 7)), 'min_sweeps': 1,
+            'N_sweeps_check': 1, 'mixer': None if engine == 'TwoSiteDMRGEngine' else True, 'max_E_err': 1e-10, 'max_S_err': 1e-6}
+    if opts['mixer']:
+        opts['mixer_params'] = {'amplitude': 1e-3, 'disable_after': 1}
+    case = {'engine': engine, 'L': L, 'orthogonal_to': excited, 'options': copy.deepcopy(opts)}
+    p0 = ['up', 'down'] * (L // 2)
+    ortho = None
+    if excited:
+        gs = MPS.from_product_state(M.lat.mps_sites(), p0, bc='finite')
+        dmrg.TwoSiteDMRGEngine(gs, M, {'trunc_params': {'chi_max': 32, 'svd_min': 1e-12}, 'max_sweeps': 8, 'mixer': None}).run()
+        ortho = [gs]
+        p0 = ['up', 'down'] * (L // 2 - 1) + ['down', 'up']
+    psi = MPS.from_product_state(M.lat.mps_sites(), p0, bc='finite')
+    kw = {'orthogonal_to': ortho} if ortho else {}
+    eng = getattr(dmrg, engine)(psi, M, copy.deepcopy(opts), **kw)
+    saved = []
+
+    def at_checkpoint(algorithm):
+        saved.append((algorithm.psi.copy(), copy.deepcopy(algorithm.get_resume_data()), algorithm.sweeps))
+
+    eng.checkpoint.connect(at_checkpoint)
+    ctx.count('engine.runs')
+    try:
+        E_ref, psi_ref = eng.run()
+        mixer_left_on = eng.mixer is not None
+        for psi_c, rd, sw in saved:
+            eng2 = getattr(dmrg, engine)(psi_c, M, copy.deepcopy(opts), resume_data=rd)
+            E2, psi2 = eng2.resume_run()
+            ctx.count('engine.resumes')
+            if excited:
+                ctx.count('engine.resumes_with_orthogonal_to')
+            ov = abs(psi2.overlap(psi_ref))
+            if opts['mixer']:
+                continue  # (the mixer schedule restarts at a resume: the recorded finding of the simulation-level part)
+            if not (abs(E2 - E_ref) <= 1e-8 * max(1.0, abs(E_ref))) or not (abs(ov - 1) <= 1e-6):
+                ctx.violation('engine-resume:%s:result-differs%s' % (engine, ':orthogonal_to' if excited else ''),
+                              'resumed after %d sweeps: E %r (uninterrupted %r), overlap with the uninterrupted final state %r' % (sw, E2, E_ref, ov), case)
+                return
+            if excited and not (abs(psi2.overlap(ortho[0])) <= 1e-6):
+                ctx.violation('engine-resume:result-not-orthogonal-to-the-given-state', 'overlap %r' % abs(psi2.overlap(ortho[0])), case)
+                return
+    except Exception as e:
+        tb = traceback.format_exc()
+        if '/tenpy/' not in tb:
+            raise
+        ctx.violation('engine-resume:%s:raises-%s' % (engine, type(e).__name__), tb[-700:], case)
+        return
+    ctx.sig(('engine', engine, L, excited, opts['max_sweeps'], opts['trunc_params']['chi_max']), nontrivial=True)
+    ctx.sample(case)
 
 
 def case_second(ctx, i):
